@@ -110,7 +110,7 @@ PROPS = {
     "C16": dict(cfgs={"quick": ["snap-3"], "thorough": ["snap-3", "snap-4"]},
                 sample={"quick": {"file": 1200, "rocks": 150}, "thorough": {"file": 0, "rocks": 5000}}),
     "C23": dict(cfgs={"quick": ["ttl-w", "ttl-r", "ttl-s"], "thorough": ["ttl-w", "ttl-r", "ttl-s", "ttl-w2"]},
-                sample={"quick": {"file": 300, "rocks": 120}, "thorough": {"file": 4000, "rocks": 1500}}, jobs=64),
+                sample={"quick": {"file": 360, "rocks": 90}, "thorough": {"file": 0, "rocks": 1200}}, jobs=24),
     "C25": dict(cfgs={"quick": ["scanc-2"], "thorough": ["scanc-2", "scanc-3", "keys-4"]},
                 sample={"quick": {"file": 1200, "rocks": 800}, "thorough": {"file": 0, "rocks": 0}}),
 }
